@@ -171,3 +171,15 @@ Definition reading_rows : list fault_row := [
   (["begin_read"; "update_keys"; "body"; "end_read"], ([("acquire_read_lock", false); ("begin_read", true); ("release_read_lock", false)], true), true, true);
   (["acquire_read_lock"; "begin_read"; "update_keys"; "body"; "end_read"], ([("acquire_read_lock", true)], true), true, true)
 ].
+(* UkvCollectionBackend(path, overwrite, readonly) observed from outside: (file existed, overwrite, readonly,
+   order of: write lock acquired / released, looks whether the file exists, creations (open in mode x or w)) *)
+Definition ctor_rows : list (bool * bool * bool * list string) := [
+  (false, false, false, ["acquire"; "exists"; "create"; "release"]);
+  (false, false, true, ["acquire"; "exists"; "create"; "release"]);
+  (false, true, false, ["acquire"; "exists"; "create"; "release"]);
+  (false, true, true, ["acquire"; "exists"; "create"; "release"]);
+  (true, false, false, ["acquire"; "exists"; "release"]);
+  (true, false, true, ["acquire"; "exists"; "release"]);
+  (true, true, false, ["acquire"; "exists"; "create"; "release"]);
+  (true, true, true, ["acquire"; "exists"; "create"; "release"])
+].
